@@ -158,7 +158,7 @@ impl Scenario for S6 {
         J::obj()
             .set("host", J::U(hosts::pick_level(sw) as u128))
             .set("type", J::str(TYPES[ty].name))
-            .set("swarm", J::obj().set("pre", J::U(sw.range(0, 3) as u128)).set("post", J::U(sw.range(1, 6) as u128)).set("rejump", J::U(sw.chance(1, 4) as u128)))
+            .set("swarm", J::obj().set("pre", J::U(sw.range(0, 3) as u128)).set("post", J::U(sw.range(1, 6) as u128)).set("rejump", J::U(sw.chance(1, 4) as u128)).set("reset", J::U(sw.chance(1, 5) as u128)))
     }
     fn new_world(&self, setup: &J) -> World {
         let host = setup.u_or("host", 0) as u8;
@@ -223,6 +223,14 @@ impl Scenario for S6 {
             return Some(Op::new(0, "jump", &[("blocks", k), ("boundary", bi as u128)]));
         }
         if s <= pre + post {
+            if w.swarm.u_or("reset", 0) == 1 && s == pre + 3 {
+                // reuse after reset: the clock must be back at zero, and (next step) it is jumped again
+                return Some(Op::new(0, "reset", &[("fixed", r.below(3) as u128)]));
+            }
+            if w.swarm.u_or("reset", 0) == 1 && s == pre + 4 && r.chance(1, 2) {
+                let (k, bi) = pick_k(r, w.ty);
+                return Some(Op::new(0, "jump", &[("blocks", k), ("boundary", bi as u128)]));
+            }
             if w.swarm.u_or("rejump", 0) == 1 && s == pre + 2 {
                 let (k, bi) = pick_k(r, w.ty);
                 return Some(Op::new(0, "jump", &[("blocks", k), ("boundary", bi as u128)]));
@@ -292,6 +300,28 @@ impl Scenario for S6 {
                 w.blocks = k;
                 w.jumped = true;
                 rh = k as u64;
+                Step::Done
+            }
+            "reset" => {
+                // Reset / finalize_reset / finalize_fixed_reset: afterwards the instance is new and its clock reads zero
+                stats.hit("op.reset_or_finalize_reset");
+                let how = op.get("fixed") % 3;
+                let real = w.real.as_mut().unwrap();
+                if let Err(m) = guarded(|| match how {
+                    0 => real.reset(),
+                    1 => {
+                        real.finalize_reset();
+                    }
+                    _ => {
+                        real.finalize_fixed_reset();
+                    }
+                }) {
+                    return Step::Fail(Violation::new(&["C17"], "K0", format!("reset/finalize_reset panics at a counter value the format allows:{}", t.name), m));
+                }
+                w.reference = Some(Ref::new(ty));
+                w.blocks = 0;
+                w.buffered = 0;
+                w.jumped = false;
                 Step::Done
             }
             "final" => {
